@@ -23,6 +23,7 @@ CFG = dict(
         "well-formed transactional log: LogWF plus BaseWF (a batch's base offset lies above every earlier batch's last offset and not above its own)",
         "the returned data contains no batch emptied by compaction and control batches carry a readable control record (hypotheses of FaithfulTxnData)",
         "the broker answers according to the isolation level carried by the FetchRequest; that the request carries the configured level for every request version v4+ is a bridge obligation (fetchLadder_eq / isolation_level_is_sent, regenerated from fetchNewMessages) and is exercised end-to-end against a request-faithful broker",
+        "attribute bits of a v2 batch outside codec / timestamp-type / transactional / control (0x3f) are reserved and ignored by clients (Kafka >= 3.1 sets 0x40 hasDeleteHorizonMs on cleaned batches): the model's batches have no such field, the harness sets these bits on the wire (#attrs token, not seen by the model) and the decoded batch must parse as if they were absent",
         "ground truth: a transactional data batch is hidden under ReadCommitted iff the first control batch of its producer after it in the log is an abort marker (undecided transactions count as visible; a faithful broker does not serve them to read-committed fetches)",
         "Fetch.Max guard and int64 non-overflow as in C03; goroutine pipeline observed end-to-end only"],
     trusted_base=[],
@@ -41,7 +42,9 @@ CFG["manifest"] = dict(
          "transactional logs, fetch boundaries at every position, shuffled / loose indexes, real FetchResponse encode -> decode -> parseResponse vs the compiled model, property oracle "
          "with the generator's ground truth, end-to-end stream (real Consumer) against a MockBroker that is faithful to the REQUEST: read-committed requests get "
          "data below the last stable offset plus the aborted index, read-uncommitted requests get data up to the high watermark and no index; every Kafka version 0.11-2.8 "
-         "(fetch v4/v7/v10/v11) x both isolation levels, logs with committed, aborted and still open transactions.",
+         "(fetch v4/v7/v10/v11) x both isolation levels, logs with committed, aborted and still open transactions. A further family (own PRNG) serves control batches and some data batches with reserved attribute bits "
+         "set on the wire (0x40 and higher bits, batch CRC recomputed) through the parse correspondence and end-to-end: the consumer must decode them, pass the markers and "
+         "deliver the committed data behind them.",
     note="Trusted: Lean kernel; harness/line protocol; translator + GoSem for the shared bridge (C03). Modelled not verified: broker behaviour (FaithfulData, FaithfulIndex), Go's "
          "unstable sort.Slice (the model sorts stably; the theorems hold for every order of the index, equal first offsets are consumed in the same step). Not modelled: goroutines.",
     technique="Lean 4 proof (invariants over the response walk, relational ground truth, omega) + differential correspondence + end-to-end observation",
